@@ -9,88 +9,96 @@ of a freshly default-constructed component. -/
 namespace Mustache.Proofs.CApi
 open Mustache.Model Mustache.Model.CApi
 
+/-- agreement on everything but `counted` -/
+structure AgreeC (I I' : CompId → CompInfo) : Prop where
+  dv : ∀ c, defaultVal I c = defaultVal I' c
+  fx : ∀ c, (I c).fixed = (I' c).fixed
+  cb : ∀ c, (I c).callbacks = (I' c).callbacks
+
 structure Agree (I I' : CompId → CompInfo) : Prop where
   dv : ∀ c, defaultVal I c = defaultVal I' c
   fx : ∀ c, (I c).fixed = (I' c).fixed
   cb : ∀ c, (I c).callbacks = (I' c).callbacks
   ct : ∀ c, (I c).counted = (I' c).counted
 
+theorem Agree.toC {I I' : CompId → CompInfo} (h : Agree I I') : AgreeC I I' := ⟨h.dv, h.fx, h.cb⟩
+
 variable {I I' : CompId → CompInfo}
 
-theorem archRemove_congr (h : Agree I I') (w : WM) (ai idx : Nat) (skip : Mask) :
+theorem archRemove_congr (h : AgreeC I I') (w : WM) (ai idx : Nat) (skip : Mask) :
     w.archRemove I ai idx skip = w.archRemove I' ai idx skip := by
   unfold WM.archRemove
   simp only [h.cb]
 
-theorem archInsert_congr (h : Agree I I') (w : WM) (ai : Nat) (e : Handle) (skip : Mask) :
+theorem archInsert_congr (h : AgreeC I I') (w : WM) (ai : Nat) (e : Handle) (skip : Mask) :
     w.archInsert I ai e skip = w.archInsert I' ai e skip := by
   unfold WM.archInsert
   simp only [h.cb, h.dv, h.fx]
 
-theorem externalMove_congr (h : Agree I I') (w : WM) (target : Nat) (e : Handle) (prev prevIdx : Nat) (skip : Mask) :
+theorem externalMove_congr (h : AgreeC I I') (w : WM) (target : Nat) (e : Handle) (prev prevIdx : Nat) (skip : Mask) :
     w.externalMove I target e prev prevIdx skip = w.externalMove I' target e prev prevIdx skip := by
   unfold WM.externalMove
   simp only [h.cb, h.dv, h.fx, archRemove_congr h]
 
-theorem destroyNowU_congr (h : Agree I I') (w : WM) (e : Handle) :
+theorem destroyNowU_congr (h : AgreeC I I') (w : WM) (e : Handle) :
     w.destroyNowU I e = w.destroyNowU I' e := by
   unfold WM.destroyNowU
   simp only [archRemove_congr h]
 
-theorem destroyNow_congr (h : Agree I I') (w : WM) (t : Nat) (e : Handle) :
+theorem destroyNow_congr (h : AgreeC I I') (w : WM) (t : Nat) (e : Handle) :
     w.destroyNow I t e = w.destroyNow I' t e := by
   unfold WM.destroyNow
   simp only [destroyNowU_congr h]
 
-theorem update_congr (h : Agree I I') (w : WM) : w.update I = w.update I' := by
+theorem update_congr (h : AgreeC I I') (w : WM) : w.update I = w.update I' := by
   unfold WM.update
   simp only [destroyNowU_congr h]
 
-theorem applyPack_congr (h : Agree I I') (w : WM) (p : List Cmd) :
+theorem applyPack_congr (h : AgreeC I I') (w : WM) (p : List Cmd) :
     w.applyPack I p = w.applyPack I' p := by
   unfold WM.applyPack
   simp only [h.cb, h.dv, archInsert_congr h, externalMove_congr h, destroyNowU_congr h]
 
-theorem flush_congr (h : Agree I I') (w : WM) : w.flush I = w.flush I' := by
+theorem flush_congr (h : AgreeC I I') (w : WM) : w.flush I = w.flush I' := by
   unfold WM.flush
   simp only [applyPack_congr h]
 
-theorem unlock_congr (h : Agree I I') (w : WM) : w.unlock I = w.unlock I' := by
+theorem unlock_congr (h : AgreeC I I') (w : WM) : w.unlock I = w.unlock I' := by
   unfold WM.unlock
   simp only [flush_congr h]
 
-theorem createAt_congr (h : Agree I I') (w : WM) (t ai : Nat) : createAt I w t ai = createAt I' w t ai := by
+theorem createAt_congr (h : AgreeC I I') (w : WM) (t ai : Nat) : createAt I w t ai = createAt I' w t ai := by
   unfold createAt
   simp only [archInsert_congr h]
 
-theorem rawVal_congr (h : Agree I I') (c : CompId) : rawVal I c = rawVal I' c := by
+theorem rawVal_congr (h : AgreeC I I') (c : CompId) : rawVal I c = rawVal I' c := by
   unfold rawVal
   simp only [h.fx]
 
 theorem assignId_congr (h : Agree I I') (w : WM) (t : Nat) (e : Handle) (c : CompId) (skip : Bool) :
     assignId I w t e c skip = assignId I' w t e c skip := by
   unfold assignId
-  simp only [h.dv, h.ct, rawVal_congr h, externalMove_congr h]
+  simp only [h.dv, h.ct, rawVal_congr h.toC, externalMove_congr h.toC]
 
-theorem store_congr (h : Agree I I') (w : WM) (p : Ptr) (tok : Nat) : store I w p tok = store I' w p tok := by
+theorem store_congr (h : AgreeC I I') (w : WM) (p : Ptr) (tok : Nat) : store I w p tok = store I' w p tok := by
   unfold store
   simp only [h.fx]
 
-theorem removeUntyped_congr (h : Agree I I') (w : WM) (t : Nat) (e : Handle) (c : CompId) :
+theorem removeUntyped_congr (h : AgreeC I I') (w : WM) (t : Nat) (e : Handle) (c : CompId) :
     removeUntyped I w t e c = removeUntyped I' w t e c := by
   unfold removeUntyped
   simp only [externalMove_congr h]
 
-theorem clear_congr (h : Agree I I') (w : WM) : clear I w = clear I' w := by
+theorem clear_congr (h : AgreeC I I') (w : WM) : clear I w = clear I' w := by
   unfold clear
   simp only [h.cb]
 
-theorem applyWrites_congr (h : Agree I I') (w : WM) (job : NtJob) (call : Mustache.Iteration.NtCall) :
+theorem applyWrites_congr (h : AgreeC I I') (w : WM) (job : NtJob) (call : Mustache.Iteration.NtCall) :
     applyWrites I w job call = applyWrites I' w job call := by
   unfold applyWrites
   simp only [store_congr h]
 
-theorem runNt_congr (h : Agree I I') (w : WM) (cap : Nat) (job : NtJob) :
+theorem runNt_congr (h : AgreeC I I') (w : WM) (cap : Nat) (job : NtJob) :
     runNt I w cap job = runNt I' w cap job := by
   unfold runNt
   simp only [applyWrites_congr h, unlock_congr h]
@@ -98,13 +106,33 @@ theorem runNt_congr (h : Agree I I') (w : WM) (cap : Nat) (job : NtJob) :
 theorem xstep_congr (h : Agree I I') (cap t : Nat) (w : WM) (op : XOp) :
     xstep I cap t w op = xstep I' cap t w op := by
   unfold xstep
-  simp only [createAt_congr h, assignId_congr h, store_congr h, removeUntyped_congr h, destroyNow_congr h,
-    update_congr h, clear_congr h, runNt_congr h]
+  simp only [createAt_congr h.toC, assignId_congr h, store_congr h.toC, removeUntyped_congr h.toC, destroyNow_congr h.toC,
+    update_congr h.toC, clear_congr h.toC, runNt_congr h.toC]
 
 theorem xrun_congr (h : Agree I I') (cap t : Nat) (w : WM) (ops : List XOp) :
     xrun I cap t w ops = xrun I' cap t w ops := by
   induction ops generalizing w with
   | nil => rfl
   | cons op rest ih => simp only [xrun, xstep_congr h, ih]
+
+/-- every call except the untyped assign reads nothing but `defaultVal`, `fixed`, `callbacks` -/
+theorem xstep_congr_notAssign (h : AgreeC I I') (cap t : Nat) (w : WM) (op : XOp)
+    (hop : ∀ e c s, op ≠ .assign e c s) : xstep I cap t w op = xstep I' cap t w op := by
+  cases op with
+  | assign e c s => exact absurd rfl (hop e c s)
+  | _ =>
+    simp only [xstep, createAt_congr h, store_congr h, removeUntyped_congr h, destroyNow_congr h,
+      update_congr h, clear_congr h, runNt_congr h]
+
+/-- the untyped assign reads `counted` only to maintain `temps` -/
+theorem assignId_modTemps (h : AgreeC I I') (w : WM) (t : Nat) (e : Handle) (c : CompId) (skip : Bool) :
+    { (assignId I w t e c skip).1 with temps := [] } = { (assignId I' w t e c skip).1 with temps := [] } ∧
+    (assignId I w t e c skip).2 = (assignId I' w t e c skip).2 := by
+  unfold assignId
+  by_cases hl : w.isLocked = true
+  · simp only [hl, if_true, h.dv, rawVal_congr h]
+    cases (I c).counted <;> cases (I' c).counted <;> simp
+  · simp only [hl, externalMove_congr h]
+    exact ⟨rfl, rfl⟩
 
 end Mustache.Proofs.CApi
